@@ -382,6 +382,89 @@ func c20LargeRun(c *core.Ctx) {
 	c.Add("traces_validated_against_impl", n)
 }
 
+// c20FragRun: fill – fragment – refill on medium ranges. The allocator is filled, every k-th identifier (k = 2..5,
+// ascending, descending and from the middle outwards; also every identifier of every second block of 3) is freed so that
+// the live set falls apart into as many runs as the range allows, then the closing check allocates until failure and
+// must get back exactly the freed identifiers. Structures that grow with the *number of fragments* (run lists, interval
+// trees, skip hints) meet their resize points only this way; the histories have hundreds of calls but no choice in them.
+func c20FragRun(c *core.Ctx) {
+	sizes := []int64{33, 64, 65, 100, 129, 200, 257, 300}
+	if c.Thorough() {
+		sizes = append(sizes, 513, 600, 1025, 1100, 2049, 2100)
+	}
+	u := 5000
+	var n int64
+	for _, size := range sizes {
+		for _, min := range []int64{0, 1} {
+			max := min + size - 1
+			for k := int64(2); k <= 6; k++ {
+				for order := 0; order < 3; order++ {
+					u++
+					if !c.Mine(u) {
+						continue
+					}
+					var ops []c20Op
+					for i := int64(0); i < size; i++ {
+						ops = append(ops, c20Op{Op: "Allocate"})
+					}
+					var frees []int64
+					if k <= 5 {
+						for id := min + 1; id <= max; id += k {
+							frees = append(frees, id)
+						}
+					} else {
+						for id := min + 1; id+2 <= max; id += 6 { // a block of three in every six
+							frees = append(frees, id, id+1, id+2)
+						}
+					}
+					switch order {
+					case 1:
+						for i, j := 0, len(frees)-1; i < j; i, j = i+1, j-1 {
+							frees[i], frees[j] = frees[j], frees[i]
+						}
+					case 2:
+						var mid []int64
+						for i, j := len(frees)/2, len(frees)/2-1; i < len(frees) || j >= 0; i, j = i+1, j-1 {
+							if i < len(frees) {
+								mid = append(mid, frees[i])
+							}
+							if j >= 0 {
+								mid = append(mid, frees[j])
+							}
+						}
+						frees = mid
+					}
+					for _, id := range frees {
+						ops = append(ops, c20Op{Op: "FreeID", A: id})
+					}
+					in := c20Path{Min: min, Max: max, Ops: ops}
+					if c.Begin("path", "IDGenerator.fragmentation", in) {
+						c20Exec(c, in)
+						n += int64(len(ops))
+					}
+					// and once more with a partial refill between two rounds of frees
+					half := append(append([]c20Op{}, ops...), c20Op{Op: "Allocate"}, c20Op{Op: "Allocate"})
+					for _, id := range frees {
+						if id+1 <= max && (id-min)%2 == 0 {
+							half = append(half, c20Op{Op: "FreeID", A: id + 1})
+						}
+					}
+					in2 := c20Path{Min: min, Max: max, Ops: half}
+					if c.Begin("path", "IDGenerator.fragmentation", in2) {
+						c20Exec(c, in2)
+						n += int64(len(half))
+					}
+				}
+			}
+			c.Tick()
+		}
+	}
+	c.Add("fragmentation_history_calls", n)
+	c.Add("transitions", n)
+	c.Add("evaluations", n)
+	c.Add("traces_validated_against_impl", n)
+}
+
 func outcomeOfKey(k string, size int64) string {
 	// coarse class: number of live ids (exposes vacuous searches that never fill or drain the allocator)
 	i := strings.Index(k, "usedMap=[")
@@ -403,7 +486,7 @@ func outcomeOfKey(k string, size int64) string {
 func init() {
 	core.RegisterKind("C20", "path", c20PathCase)
 	core.RegisterProp(&core.PropSpec{
-		ID: "C20", Level: "model_checking", Run: func(c *core.Ctx) { c20Run(c); c20LargeRun(c) },
+		ID: "C20", Level: "model_checking", Run: func(c *core.Ctx) { c20Run(c); c20LargeRun(c); c20FragRun(c) },
 		Shards: func(tier string) int { return 16 },
 		Rule: func(tier string) string {
 			return "BFS to fixpoint over the reachable states (live set, scan offset) of the real IDGenerator for every configured range; every operation (Allocate, Allocate_inRange(a,b) for all a,b in [max(0,min-2), max+2] (out-of-bounds and reversed pairs included), FreeID(x) for all x in [min-1,max+1]) is applied in every state by replaying the shortest path on a fresh allocator; each transition is checked against a live-set model and followed by the closure check (repeated Allocate returns exactly the free ids). States are distinct by the values of all fields of the allocator. Environment: the library's reads of the wall clock and of the process-local zone go through a seam (source overlay); every path of up to two operations on the ranges of 2..4 identifiers is repeated under 14 clock answers (two dates x the sub-second phases 0, 1 ns, 499 999 999, 500 000 000, 999 499 999, 999 500 000, 999 999 999 ns). Wide ranges ([1,65535], [0,2047], [1,1500]) cannot be searched to a fixpoint: every history of up to 4 (thorough 5) operations over Allocate, Allocate_inRange(a, max) for a around the powers of two 2^8..2^12 and at both ends, and FreeID of the first..fourth id returned, with the live-set oracle and six closing allocations."
